@@ -203,13 +203,13 @@ void harness(void)
       memcpy(o.ctx, nd, CTX_SIZE);
 #endif
     }
-    /* representation invariants of a live context: a round count and an offset the API can produce */
+    /* representation invariant of a live context: a round count the API can produce (enumerated by the plan) */
 #if CIPHER == 3
-    ASSUME(((MantisKey_t *)o.ctx)->rounds <= MAXR);
+    ((MantisKey_t *)o.ctx)->rounds = WROUNDS;
 #elif CIPHER == 1
-    ASSUME(((Skinny128Key_t *)o.ctx)->rounds <= MAXR);
+    ((Skinny128Key_t *)o.ctx)->rounds = WROUNDS;
 #else
-    ASSUME(((Skinny64Key_t *)o.ctx)->rounds <= MAXR);
+    ((Skinny64Key_t *)o.ctx)->rounds = WROUNDS;
 #endif
     op_cleanup(&o);
     CHECK(n_live == 0 && n_badfree == 0, "the context is released exactly once");
